@@ -411,3 +411,47 @@ Definition image_val (secs : list sect) (i : image) : val :=
 #[global] Instance ToVal_obj : ToVal obj :=
   fun o => VT [toval (o_sects o); toval (o_syms o); toval (o_relocs o);
                VL (map (image_val (o_sects o)) (o_images o)); toval (o_entry o)].
+
+(* ------------------------------------------------------------------ after layout: relocation and the
+   SECTIONDATA copies (fixes/C12-3-sectiondata-after-relocation.diff).
+   do_relaxations/do_relocations are not modelled; they are an arbitrary function [relocate] on the
+   destination's sections (C11/C13 describe what it does). With the fix (fix_sd = true) the linker then runs
+   update_section_copies: every (copy, source) pair recorded by layout_sections, in creation order, gets
+   copy.data[:] = source.data. The pairs hold Section objects; here they are names (unique in dst). *)
+Definition input_pair (i : minput) : list (string * string) :=
+  match i with ISectionData n => [(sd_name n, n)] | _ => [] end.
+Definition sd_pairs (mems : list memory) : list (string * string) :=
+  flat_map (fun m => flat_map input_pair (m_inputs m)) mems.
+
+Fixpoint refresh_copies (pairs : list (string * string)) (secs : list sect) : list sect :=
+  match pairs with
+  | [] => secs
+  | (c, n) :: r =>
+      refresh_copies r
+        (match find_sect c secs, find_sect n secs with
+         | Some cs, Some ss => set_sect (mkSect (s_name cs) (s_addr cs) (s_align cs) (s_data ss)) secs
+         | _, _ => secs
+         end)
+  end.
+
+Definition link_final (cfg : lcfg) (fix_sd : bool) (relocate : list sect -> result (list sect))
+           (objs : list obj) (lay : option layout) (entry : option string)
+           (extra : list (string * Z)) : result obj :=
+  d <- link cfg objs lay false entry extra ;;
+  secs <- relocate (o_sects d) ;;
+  Ok (with_sects d
+        (if fix_sd
+         then match lay with Some l => refresh_copies (sd_pairs (l_mems l)) secs | None => secs end
+         else secs)).
+
+(* a concrete stand-in for do_relocations used by the correspondence: every byte of every section whose
+   name does not start with "_$" is replaced by (b + 1) mod 256 *)
+Definition is_generated (n : string) : bool :=
+  match n with
+  | String a (String b _) => Ascii.eqb a (Ascii.ascii_of_nat 95) && Ascii.eqb b (Ascii.ascii_of_nat 36)
+  | _ => false
+  end.
+Definition bump_sections (secs : list sect) : result (list sect) :=
+  Ok (map (fun s => if is_generated (s_name s) then s
+                    else mkSect (s_name s) (s_addr s) (s_align s) (map (fun b => (b + 1) mod 256) (s_data s)))
+          secs).
